@@ -394,6 +394,22 @@ class Ctx:
         self.obs.append(rec)
         return bool(ok)
 
+    def guard(self, fn, *a, **k):
+        """Run one rule.  A rule that crashes because an anchor it needs is
+        missing is reported as an undischarged obligation if (and only if)
+        some obligation has already failed on this tree -- the structure it
+        relies on is gone; on a tree without failures a crash is a checker bug
+        and propagates (ANALYSIS-ERROR)."""
+        try:
+            return fn(*a, **k)
+        except (AnalysisError, AttributeError, TypeError, IndexError, KeyError, ValueError, AssertionError) as e:
+            if any(not o["ok"] for o in self.obs):
+                self.ob("UNEVALUABLE", f"{getattr(fn, '__qualname__', fn)}", False,
+                        f"rule could not be evaluated because the structure it is anchored in is not recognisable "
+                        f"({type(e).__name__}: {e})", nontrivial=False)
+                return None
+            raise
+
     def floor(self, rule: str, n: int):
         """Declare the minimum number of obligations rule must have produced
         (confirmed by hand on the reference tree)."""
